@@ -148,6 +148,8 @@ let run_case ~(v0 : bool) (c : case) =
     | "pool" :: ks -> kinds := ks
     | "ext" :: es -> exts := es
     | "cbprobe" :: _ -> ()
+    | "farslots" :: _ -> ()     (* where the driver places the objects in memory: invisible to the model *)
+    | "relnull" :: _ -> ()      (* the driver passes NULL as out-parameter of cstl_array_release: same effect *)
     | "cbwreset" :: _ -> print_endline "precond"; dead := true   (* re-entrant callback: outside the model *)
     | "constapi" :: _ -> ()
     | "fail" :: os -> fails := L.map int_of_string os
